@@ -215,3 +215,105 @@ class _StreamProbe:
 @register("aligned_stream")
 def open_aligned_stream(files, opaque, p):
     return _StreamProbe(p)
+
+
+def _pattern(tag, a, n):
+    return bytes(((tag * 37 + x * 131) ^ (x >> 9)) & 0xFF for x in range(a, a + n))
+
+
+class _AssemblyProbe:
+    """Real VMDK / StorageStream over concrete stand-in extents with recognisable content."""
+
+    def __init__(self, kind, p):
+        self.kind, self.p = kind, p
+
+    def _read(self, offset, length):
+        p = self.p
+        if self.kind == "vmdk":
+            from dissect.hypervisor.disk import vmdk
+
+            counts = p["counts"]
+            if max(counts) * 512 > 1 << 40 or length > 1 << 24:
+                raise MemoryError("replay too large")
+
+            class Ext:
+                def __init__(self, k):
+                    self.k, self.parent, self.descriptor = k, None, None
+                    self.sector_count, self.size = counts[k], counts[k] * 512
+                    self.offset = self.sector_offset = 0
+
+                def read_sectors(self, sector, count):
+                    return _pattern(self.k, (sector - self.sector_offset) * 512, count * 512)
+
+            obj = vmdk.VMDK.__new__(vmdk.VMDK)
+            # run the real constructor with the extent classes replaced
+            orig = (vmdk.SparseDisk, vmdk.RawDisk)
+            vmdk.SparseDisk = vmdk.RawDisk = lambda fh, *a, **kw: Ext(fh.idx)
+            try:
+                from harness.assembly import _Handle
+
+                fhs = [_Handle(b"KDMV" if k == "sparse" else b"\xeb\x3c\x90\x00", i) for i, k in enumerate(p["kinds"])]
+                obj.__init__(fhs if len(fhs) > 1 else fhs[0])
+            finally:
+                vmdk.SparseDisk, vmdk.RawDisk = orig
+            got = obj._read(offset, length)
+            exp = bytearray()
+            starts = [sum(counts[:k]) * 512 for k in range(len(counts))]
+            total = sum(counts) * 512
+            for g in range(offset, min(offset + length, total)):
+                k = max(i for i, st in enumerate(starts) if st <= g)
+                exp.append(_pattern(k, g - starts[k], 1)[0])
+            return got, bytes(exp), obj.size == total
+        from dissect.hypervisor.disk import hdd
+
+        lens = p["lens"]
+        if length > 1 << 24:
+            raise MemoryError("replay too large")
+        starts = [sum(lens[:k]) for k in range(len(lens))]
+
+        class Mem:
+            def __init__(self, k):
+                self.k, self.pos = k, 0
+
+            def seek(self, off, whence=0):
+                self.pos = off
+
+            def read(self, n):
+                n = max(min(n, lens[self.k] * 512 - self.pos), 0)
+                r = _pattern(self.k, self.pos, n)
+                self.pos += n
+                return r
+
+        import types
+
+        streams = [(types.SimpleNamespace(start=starts[k], end=starts[k] + lens[k], images=[]), Mem(k)) for k in p["order"]]
+        obj = hdd.StorageStream(streams)
+        got = obj._read(offset, length)
+        total = sum(lens) * 512
+        exp = bytearray()
+        for g in range(offset, min(offset + length, total)):
+            k = max(i for i, st in enumerate(starts) if st * 512 <= g)
+            exp.append(_pattern(k, g - starts[k] * 512, 1)[0])
+        return got, bytes(exp), obj.size == total
+
+
+@register("vmdk_assembly")
+def open_vmdk_assembly(files, opaque, p):
+    return _AssemblyProbe("vmdk", p)
+
+
+@register("storage_stream")
+def open_storage_stream(files, opaque, p):
+    return _AssemblyProbe("storage", p)
+
+
+class _LineProbe:
+    def parse_line(self, line):
+        from dissect.hypervisor.disk.vmdk import DiskDescriptor
+
+        return [e.type for e in DiskDescriptor.parse(line).extents]
+
+
+@register("vmdk_descriptor_line")
+def open_line(files, opaque, p):
+    return _LineProbe()
